@@ -4,6 +4,9 @@ package ecs
 
 // ---- shapes (built through the real API) and single-operation steps.
 
+// vMode: 0 = valid and invalid calls, 1 = valid calls only (C01/C04), 2 = rejected calls only (C10)
+var vMode = 0
+
 func vPick(l string, n int) int { return int(vconcrete(uint32(vU8(l)) % uint32(n))) }
 
 // shape 0: plain archetypes {A} {A,B} {B,T} {A,P}, optional removal (recycled id, swapped row)
@@ -47,6 +50,9 @@ func vShapeRel(capacity, pad int, withFree bool, emptied int) *vWorld {
 		c := W.create([]int{cR1, cA}, W.e[p2].h, Entity{})
 		W.removeEntity(c)
 		W.removeEntity(p2) // frees the (R1->p2) table; p2's id is recycled next
+		// the recycled id becomes a target again: the dead handle p2 and the live p3 share an id
+		p3 := W.create([]int{cA}, Entity{}, Entity{})
+		W.create([]int{cR1, cA}, W.e[p3].h, Entity{})
 	}
 	for i := 0; i < W.n; i++ {
 		if W.e[i].alive {
@@ -67,12 +73,27 @@ func vShapeRel(capacity, pad int, withFree bool, emptied int) *vWorld {
 
 // ---- operations with their documented effect on the model (DESIGN.md A.1)
 
+// pickTarget: zero, the first two alive entities, every dead tracked handle, and the last alive one.
 func (W *vWorld) pickTarget(l string) Entity {
-	k := vPick(l, W.n+1)
-	if k == W.n {
-		return Entity{}
+	var cand []Entity
+	cand = append(cand, Entity{})
+	alive := 0
+	last := -1
+	for j := 0; j < W.n; j++ {
+		if W.e[j].alive {
+			if alive < 2 {
+				cand = append(cand, W.e[j].h)
+			}
+			alive++
+			last = j
+		} else {
+			cand = append(cand, W.e[j].h)
+		}
 	}
-	return W.e[k].h // may be a dead handle
+	if last >= 0 && alive > 2 {
+		cand = append(cand, W.e[last].h)
+	}
+	return cand[vPick(l, len(cand))]
 }
 func (W *vWorld) targetOK(t Entity) bool {
 	if t.IsZero() {
@@ -110,6 +131,9 @@ func (W *vWorld) pickComps(l string) []int {
 
 // expectReject: the call must panic and leave everything as it was.
 func (W *vWorld) expectReject(tag string, f func()) {
+	if vMode == 1 {
+		return
+	}
 	vcheck(tag+"/panics", vpanics(f))
 	W.checkAll(tag + "/rejected")
 	vreach(tag + "/rejected")
@@ -137,6 +161,9 @@ func (W *vWorld) opNew(tag string) {
 		return
 	}
 	var i int
+	if vMode == 2 {
+		return
+	}
 	vcheck(tag+"/new/no-panic", !vpanics(func() { i = W.create(cs, t0, t1) }))
 	vcheck(tag+"/new/fresh-handle", W.freshHandle(W.e[i].h, i))
 	vcheck(tag+"/new/zero-initialised", vpure(func() bool { return W.zeroNew(i, cs) }))
@@ -163,8 +190,14 @@ func (W *vWorld) opAdd(tag string) {
 	}
 	valid = valid && W.targetOK(t0) && W.targetOK(t1)
 	call := func() { W.u.AddRel(m.h, W.ids(cs), W.rels(cs, t0, t1)...) }
+	if !valid && m.alive && i > 1 && W.targetOK(t0) && W.targetOK(t1) {
+		return // "already has" rejections are exercised on the first two entities only
+	}
 	if !valid {
 		W.expectReject(tag+"/add", call)
+		return
+	}
+	if vMode == 2 {
 		return
 	}
 	vcheck(tag+"/add/no-panic", !vpanics(call))
@@ -192,8 +225,14 @@ func (W *vWorld) opRemove(tag string) {
 		valid = valid && m.has[c]
 	}
 	call := func() { W.u.Remove(m.h, W.ids(cs)...) }
+	if !valid && m.alive && i > 1 {
+		return
+	}
 	if !valid {
 		W.expectReject(tag+"/remove", call)
+		return
+	}
+	if vMode == 2 {
 		return
 	}
 	vcheck(tag+"/remove/no-panic", !vpanics(call))
@@ -221,8 +260,14 @@ func (W *vWorld) opExchange(tag string) {
 	}
 	valid := m.alive && !m.has[ca] && m.has[cr] && ca != cr && W.targetOK(t)
 	call := func() { W.u.Exchange(m.h, W.ids([]int{ca}), W.ids([]int{cr}), W.rels([]int{ca}, t, t)...) }
+	if !valid && m.alive && i > 1 && W.targetOK(t) {
+		return // has/lacks rejections are exercised on the first two entities only
+	}
 	if !valid {
 		W.expectReject(tag+"/exchange", call)
+		return
+	}
+	if vMode == 2 {
 		return
 	}
 	vcheck(tag+"/exchange/no-panic", !vpanics(call))
@@ -256,6 +301,9 @@ func (W *vWorld) opSetRelations(tag string) {
 		W.expectReject(tag+"/setrel", call)
 		return
 	}
+	if vMode == 2 {
+		return
+	}
 	vcheck(tag+"/setrel/no-panic", !vpanics(call))
 	m.tgt[c-cR1] = t
 	W.checkAll(tag + "/setrel")
@@ -268,6 +316,9 @@ func (W *vWorld) opRemoveEntity(tag string) {
 	call := func() { W.w.RemoveEntity(m.h) }
 	if !m.alive {
 		W.expectReject(tag+"/remove-entity", call)
+		return
+	}
+	if vMode == 2 {
 		return
 	}
 	vcheck(tag+"/remove-entity/no-panic", !vpanics(call))
@@ -287,6 +338,9 @@ func (W *vWorld) opCopy(tag string) {
 	call := func() { h = W.w.CopyEntity(m.h) }
 	if !m.alive {
 		W.expectReject(tag+"/copy", call)
+		return
+	}
+	if vMode == 2 {
 		return
 	}
 	vcheck(tag+"/copy/no-panic", !vpanics(call))
@@ -311,6 +365,9 @@ func (W *vWorld) opSet(tag string) {
 	}
 	if !m.has[cA] {
 		return // Set of a missing component is unchecked outside debug builds (C20)
+	}
+	if vMode == 2 {
+		return
 	}
 	vcheck(tag+"/set/no-panic", !vpanics(call))
 	m.pos = v
@@ -354,41 +411,76 @@ func (W *vWorld) applyOp(op int, tag string) {
 
 // one operation from the plain shape: IDs straddle the first mask-word boundary (pad 60),
 // capacity 1 (every table grows), tight slices
-func vStepPlain(op int, capacity, pad int) {
-	W := vShapePlain(capacity, pad, vPick("removal", 4))
+func vStepPlain(op int, capacity, pad int) { vStepPlainV(op, capacity, pad, 3) }
+func vStepPlainV(op int, capacity, pad int, nv int) {
+	W := vShapePlain(capacity, pad, 1+vPick("removal", nv)%4)
 	vTighten(W.w)
-	W.checkAll("pre")
-	W.applyOp(op, "op")
-}
-func vStepRel(op int, capacity, pad int) {
-	W := vShapeRel(capacity, pad, vPick("free", 2) == 1, vPick("emptied", 4))
-	vTighten(W.w)
-	W.checkAll("pre")
+	if op >= 5 {
+		W.checkAll("pre")
+	}
 	W.applyOp(op, "op")
 }
 
-func VerifC01_PlainNew()      { vStepPlain(0, 1, 60) }
-func VerifC01_PlainAdd()      { vStepPlain(1, 1, 60) }
-func VerifC01_PlainRemove()   { vStepPlain(2, 1, 60) }
-func VerifC01_PlainExchange() { vStepPlain(3, 1, 60) }
-func VerifC01_PlainRemoveEntity() {
-	vStepPlain(5, 1, 60)
-}
-func VerifC01_PlainCopy()   { vStepPlain(6, 1, 60) }
-func VerifC01_PlainSet()    { vStepPlain(7, 1, 60) }
-func VerifC01_PlainShrink() { vStepPlain(8, 2, 60) }
+// variants: (free table + recycled parent id, emptied relation table)
+var vRelVariants = [5][2]int{{1, 0}, {0, 1}, {1, 2}, {0, 0}, {1, 3}}
 
-func VerifC01_RelNew()          { vStepRel(0, 1, 60) }
-func VerifC01_RelAdd()          { vStepRel(1, 1, 60) }
-func VerifC01_RelRemove()       { vStepRel(2, 1, 60) }
-func VerifC01_RelExchange()     { vStepRel(3, 1, 60) }
-func VerifC04_RelSetRelations() { vStepRel(4, 1, 60) }
-func VerifC04_RelRemoveEntity() { vStepRel(5, 1, 60) }
-func VerifC01_RelCopy()         { vStepRel(6, 1, 60) }
-func VerifC15_RelShrink()       { vStepRel(8, 2, 60) }
+func vStepRel(op int, capacity, pad int) { vStepRelV(op, capacity, pad, 3) }
+func vStepRelV(op int, capacity, pad int, nv int) {
+	v := vRelVariants[vPick("variant", nv)]
+	W := vShapeRel(capacity, pad, v[0] == 1, v[1])
+	vTighten(W.w)
+	if op >= 5 {
+		W.checkAll("pre")
+	}
+	W.applyOp(op, "op")
+}
+
+func vRun(mode int, f func()) {
+	vMode = mode
+	f()
+}
+
+// C01: valid operations (effect on the operated entity, frame for all others, INV)
+func VerifC01_PlainNew()          { vRun(1, func() { vStepPlain(0, 1, 60) }) }
+func VerifC01_PlainAdd()          { vRun(1, func() { vStepPlain(1, 1, 60) }) }
+func VerifC01_PlainRemove()       { vRun(1, func() { vStepPlain(2, 1, 60) }) }
+func VerifC01_PlainExchange()     { vRun(1, func() { vStepPlain(3, 1, 60) }) }
+func VerifC01_PlainRemoveEntity() { vRun(1, func() { vStepPlain(5, 1, 60) }) }
+func VerifC01_PlainCopy()         { vRun(1, func() { vStepPlain(6, 1, 60) }) }
+func VerifC01_PlainSet()          { vRun(1, func() { vStepPlain(7, 1, 60) }) }
+func VerifC01_RelNew()            { vRun(1, func() { vStepRel(0, 1, 60) }) }
+func VerifC01_RelAdd()            { vRun(1, func() { vStepRel(1, 1, 60) }) }
+func VerifC01_RelRemove()         { vRun(1, func() { vStepRel(2, 1, 60) }) }
+func VerifC01_RelExchange()       { vRun(1, func() { vStepRel(3, 1, 60) }) }
+func VerifC01_RelCopy()           { vRun(1, func() { vStepRel(6, 1, 60) }) }
+
+// C04: relation targets
+func VerifC04_RelSetRelations() { vRun(1, func() { vStepRel(4, 1, 60) }) }
+func VerifC04_RelRemoveEntity() { vRun(1, func() { vStepRel(5, 1, 60) }) }
+
+// C15: Shrink is invisible
+func VerifC15_PlainShrink() { vRun(1, func() { vStepPlain(8, 2, 60) }) }
+func VerifC15_RelShrink()   { vRun(1, func() { vStepRel(8, 2, 60) }) }
+
+// C10: every rejected call panics and leaves the world unchanged
+func VerifC10_PlainNew()          { vRun(2, func() { vStepPlain(0, 1, 60) }) }
+func VerifC10_PlainAdd()          { vRun(2, func() { vStepPlain(1, 1, 60) }) }
+func VerifC10_PlainRemove()       { vRun(2, func() { vStepPlain(2, 1, 60) }) }
+func VerifC10_PlainExchange()     { vRun(2, func() { vStepPlain(3, 1, 60) }) }
+func VerifC10_PlainRemoveEntity() { vRun(2, func() { vStepPlain(5, 1, 60) }) }
+func VerifC10_PlainCopy()         { vRun(2, func() { vStepPlain(6, 1, 60) }) }
+func VerifC10_PlainSet()          { vRun(2, func() { vStepPlain(7, 1, 60) }) }
+func VerifC10_RelNew()            { vRun(2, func() { vStepRel(0, 1, 60) }) }
+func VerifC10_RelAdd()            { vRun(2, func() { vStepRel(1, 1, 60) }) }
+func VerifC10_RelRemove()         { vRun(2, func() { vStepRel(2, 1, 60) }) }
+func VerifC10_RelExchange()       { vRun(2, func() { vStepRel(3, 1, 60) }) }
+func VerifC10_RelSetRelations()   { vRun(2, func() { vStepRel(4, 1, 60) }) }
+func VerifC10_RelRemoveEntity()   { vRun(2, func() { vStepRel(5, 1, 60) }) }
+func VerifC10_RelCopy()           { vRun(2, func() { vStepRel(6, 1, 60) }) }
 
 // ---- two-operation histories (thorough tier): every pair of operations from each shape
 func vHistory2(rel bool) {
+	vMode = 0
 	var W *vWorld
 	if rel {
 		W = vShapeRel(1, 60, true, 0)
@@ -401,3 +493,11 @@ func vHistory2(rel bool) {
 }
 func VerifC01T_History2Plain() { vHistory2(false) }
 func VerifC04T_History2Rel()   { vHistory2(true) }
+
+// other ID placements and capacities (thorough)
+func VerifC01T_PlainAddPad0()        { vRun(1, func() { vStepPlainV(1, 2, 0, 4) }) }
+func VerifC01T_PlainRemovePad124()   { vRun(1, func() { vStepPlainV(2, 1, 124, 4) }) }
+func VerifC01T_PlainExchangePad250() { vRun(1, func() { vStepPlainV(3, 2, 250, 4) }) }
+func VerifC01T_RelAddPad250()        { vRun(1, func() { vStepRelV(1, 2, 250, 5) }) }
+func VerifC04T_RelRemoveEntityAll()  { vRun(1, func() { vStepRelV(5, 2, 190, 5) }) }
+func VerifC04T_RelSetRelationsAll()  { vRun(1, func() { vStepRelV(4, 1, 126, 5) }) }
